@@ -64,7 +64,9 @@ def main(argv):
     if args.prop == "selftest-child":
         import json
         from sim import selftest
-        return selftest.child_main(args.child_prop, args.tier, json.loads(args.child_seeds))
+        raw = args.child_seeds
+        seeds = json.load(open(raw[1:])) if raw.startswith("@") else json.loads(raw)
+        return selftest.child_main(args.child_prop, args.tier, seeds)
     if args.prop not in ALL_PROPS:
         print(f"HARNESS-ERROR unknown property {args.prop}; claimed: {sorted(ALL_PROPS)}")
         return core.EXIT_HARNESS
